@@ -153,7 +153,10 @@ def run_tlc(module: str, cfg_text: str, workdir: Path, *, workers: int | str | N
 
 def require_ok(res: TLCResult, what: str):
     if not res.ok():
-        tail = "\n".join(res.out.splitlines()[-40:])
+        lines = res.out.splitlines()
+        cause = [l for l in lines if any(t in l for t in ("Attempted", "should be", "was not in the domain", "is not a", "overflow",
+                                                           "Error: ", "evaluating", "violated"))][:12]
+        tail = "\n".join(cause + ["..."] + lines[-15:])
         raise MachineryError(f"TLC failed for {what}: {res.error or res.invariant_violated}\n{tail}")
 
 
